@@ -57,6 +57,16 @@ def generate(rng, tier):
                 s.add("add U M%d" % mi); mi += 1
                 probes.append((pres, "last", c0 + 0x20 + lenK, 5, None))
                 pos = c0 + 0x20 + lenK + 0x1000 * rng.range(1, 4)
+            # an image of more than 4 GiB whose function L ends exactly 4 GiB above the base address: as a return address
+            # that boundary still belongs to L (looked up at base + 2^32 - 1, the last address a 32-bit relative address
+            # reaches); as an instruction pointer it lies beyond reach - no usable information (seeded change C13-11
+            # converted the raw address before taking one off)
+            big = 0x1000000000 + (1 << 34) * (rep % 4)
+            lenL = rng.choice([1, 2, 0x10])
+            fL = [dict(start=(1 << 32) - lenL, len=lenL, rows=[(0, delta_row(arch, 9))])]
+            s.module_dwarf("M%d" % mi, big, big + (1 << 32) + 0x1000, big, 0, ("hdr", "eh", "debug")[rep % 3], fL, rng)
+            s.add("add U M%d" % mi); mi += 1
+            probes.append((("hdr", "eh", "debug")[rep % 3], "4gib", big + (1 << 32), 9, None))
             for (pres, kind, e, kF, kG) in probes:
                 for ak, k in (("ra", kF), ("ip", kG)):
                     if k is None:
